@@ -41,6 +41,9 @@ Variable ccf : canon_c_t -> cc_result.            (* the compiler *)
 Variable direct_mode : N -> bool.
 Variable lng : N -> Stats.lang.
 Variable upd mok cab : N -> bool.
+(* whether sccache's own code panics around the preprocessor / compiler step of unit t (Model/ReqSM.v o_pp_panics,
+   o_c_panics): unconstrained here; the corollaries name [calm] / [calm_oracle] where C09's theorems do *)
+Variable ppan cpan : N -> bool.
 
 Definition pp_of (t : N) : pp_result := ppf (canon_p the_spec (base t)) (man t).
 (* the C02 request of unit t, preprocessor output included *)
@@ -61,7 +64,9 @@ Definition world_of : world := fun t =>
      o_c_stderr := cr_stderr (cc_of t);
      o_c_outputs := cr_outputs (cc_of t);
      o_c_writes := cr_writes (cc_of t);
-     o_cacheable := cab t |}.
+     o_cacheable := cab t;
+     o_pp_panics := ppan t;
+     o_c_panics := cpan t |}.
 
 (* C02's well-formedness of every unit's requests *)
 Hypothesis wf_main : forall t, wf_c the_spec (req t) = true.
@@ -132,8 +137,9 @@ Variable ccf : canon_c_t -> cc_result.
 Variable direct_mode : N -> bool.
 Variable lng : N -> Stats.lang.
 Variable upd mok cab : N -> bool.
+Variable ppan cpan : N -> bool.
 Hypothesis ok : C02_world_ok H base man ppf.
-Let w := world_of H base man ppf ccf direct_mode lng upd mok cab.
+Let w := world_of H base man ppf ccf direct_mode lng upd mok cab ppan cpan.
 
 Lemma consistent_from_C02_b : consistent w.
 Proof.
@@ -141,15 +147,23 @@ Proof.
 Qed.
 
 Lemma faults_transparent_closed_b (st : cstate) (t : N) (f : faults) (cl : req_class) (cc : cache_control) :
-  Inv w st -> sane (w t) -> f_outdir_ok f = true -> transparent (w t) (snd (fst (request f cl cc (w t) st))).
+  Inv w st -> sane (w t) -> f_outdir_ok f = true -> calm f (w t) ->
+  transparent (w t) (snd (fst (request f cl cc (w t) st))).
 Proof. intros. apply request_transparent; try assumption. exact consistent_from_C02_b. Qed.
+
+(* without [calm]: the request is still answered, with the compiler's result or a reported fatal error *)
+Lemma internal_fault_reported_closed_b (st : cstate) (t : N) (f : faults) (cl : req_class) (cc : cache_control) :
+  Inv w st -> sane (w t) -> f_outdir_ok f = true ->
+  transparent (w t) (snd (fst (request f cl cc (w t) st)))
+  \/ r_client (snd (fst (request f cl cc (w t) st))) = CFatal.
+Proof. intros. apply request_answered; try assumption. exact consistent_from_C02_b. Qed.
 
 Lemma history_transparent_closed_b (ss : list step) :
   (forall t, sane (w t)) -> history_ok w empty_cache ss.
 Proof. intro HS. apply history_transparent; auto. exact consistent_from_C02_b. apply Inv_empty. Qed.
 
 Lemma repopulates_closed_b (st : cstate) (t : N) :
-  Inv w st -> sane (w t) -> cs_ro st = false ->
+  Inv w st -> sane (w t) -> calm_oracle (w t) -> cs_ro st = false ->
   o_pp_status (w t) = 0 -> o_c_status (w t) = 0 -> o_cacheable (w t) = true ->
   let '(st1, r1, _) := request no_faults QCompile CCDefault (w t) st in
   let '(st2, r2, _) := request no_faults QCompile CCDefault (w t) st1 in
